@@ -26,7 +26,7 @@ class C10(Prop):
             '14-event alphabet (2 ids, 2 routes, interim/final/file/tag events). non-trivial = at least 2 events with a test id and '
             '(a key with >= 2 lifetimes, or an open lifetime, or a multi-chunk attachment); distinct = distinct input S-expression')
     assumptions = ['content types are opaque tokens: parsing of mime strings (_make_content_type / email) belongs to C16',
-                   'a file named "reason" is text-typed (StreamSummary._skip calls as_text() on it and raises ValueError for a binary one: outside the generated domain, reported)',
+
                    'text-typed attachments carry bytes valid in their charset (StreamSummary formats failed tests\' details and would raise UnicodeDecodeError otherwise; noted in DESIGN section 0)',
                    'Python dict insertion order / popitem() LIFO order are modelled by an association list',
                    'test ids, tags and file names are drawn from fixed vocabularies (incl. non-ASCII names) and mapped to numbers']
@@ -99,12 +99,12 @@ class C10(Prop):
         fname = fbytes = mime = None
         eof = False
         if rng.random() < 0.5:
-            fname = rng.choice([n for n in names if n != 0] if binary else names)
+            fname = rng.choice(names)
             alphabet = [0, 255, 10, 65, 200] if binary else [65, 66, 10, 32, 122]
             k = rng.choice([None, 0, 1, 1, 2, 3])
             fbytes = None if k is None else [rng.choice(alphabet) for _ in range(k)]
-            # a file named 'reason' is always text-typed: StreamSummary._skip calls as_text() on it (ValueError otherwise)
-            mime = rng.choice([None, 0, 3] if binary else [1, 2, 4] if fname == 0 else [None, 0, 1, 1, 2, 3, 4])
+            # (a non-text 'reason' attachment on a skip used to make StreamSummary raise: fixed in /repo 08362b3, now generated)
+            mime = rng.choice([None, 0, 3] if binary else [None, 0, 1, 1, 2, 3, 4])
             eof = rng.random() < 0.4
         elif rng.random() < 0.05:
             fbytes = [65]            # bytes without a name: ignored
